@@ -48,7 +48,9 @@ import (
 // peer any refresh (oracle 3). The seq part also removes entities that are not in the device's entity list while
 // their heartbeat runs (histories "restart-after-remove" and "never-added"), judged by oracle (5).
 
-var c16Timeouts = []time.Duration{100 * time.Millisecond, 300 * time.Millisecond, time.Second, 2500 * time.Millisecond, 4 * time.Second}
+// 150ms and 1.25s are not multiples of the 0.1s resolution of the announced xs:duration: the announced timeout
+// (PT0.1S, PT1.2S) is then shorter than the configured Go value, and the period is judged against the announced one
+var c16Timeouts = []time.Duration{100 * time.Millisecond, 150 * time.Millisecond, 300 * time.Millisecond, time.Second, 1250 * time.Millisecond, 2500 * time.Millisecond, 4 * time.Second}
 
 func init() {
 	rig.Register(&rig.Check{
@@ -74,7 +76,7 @@ func init() {
 			"histories that call StartHeartbeat before an effective AddFunctionType run in a child process, because the stream goroutine of the current tree dereferences a nil feature at its first tick and takes the process down (reported as heartbeat/start-without-feature-panics)",
 		},
 		Parts: []rig.Part{
-			{Name: "seq", Run: c16Seq, Workers: 32, Chunk: 1, Procs: 2, Quiet: 120 * time.Second, Cases: func(t rig.Tier) int { return map[rig.Tier]int{rig.Quick: 30, rig.Thorough: 300}[t] }},
+			{Name: "seq", Run: c16Seq, Workers: 32, Chunk: 1, Procs: 2, Quiet: 120 * time.Second, Cases: func(t rig.Tier) int { return map[rig.Tier]int{rig.Quick: 42, rig.Thorough: 336}[t] }},
 			{Name: "conc", Run: c16Conc, Workers: 20, Chunk: 1, Procs: 4, Quiet: 120 * time.Second, Cases: func(t rig.Tier) int { return map[rig.Tier]int{rig.Quick: 16, rig.Thorough: 140}[t] }},
 			{Name: "conc-race", Race: true, Run: c16Conc, Workers: 16, Chunk: 1, Procs: 4, Quiet: 180 * time.Second, Cases: func(t rig.Tier) int { return map[rig.Tier]int{rig.Quick: 8, rig.Thorough: 48}[t] }},
 			{Name: "slowtap", Run: c16SlowTap, Workers: 12, Chunk: 1, Procs: 2, Quiet: 120 * time.Second, Cases: func(t rig.Tier) int { return map[rig.Tier]int{rig.Quick: 6 + 4, rig.Thorough: 16 + 12}[t] }},
@@ -582,7 +584,11 @@ func (e *c16Env) checkpointStopped(op string, s int64, v0 uint64, v0ok bool, ext
 func (e *c16Env) finish() {
 	c := e.c
 	ns := e.tap.notifies()
+	// until a notify shows the announced timeout: what the configured value is announced as
 	announced := e.timeout
+	if d, err := model.NewDurationType(e.timeout).GetTimeDuration(); err == nil && d > 0 {
+		announced = d
+	}
 	var prev *c16Notify
 	lastAtByG := map[int64]time.Time{}
 	lastDoneByG := map[int64]c16Notify{}
